@@ -25,6 +25,9 @@ pub enum Case {
     /// kind 0: general position; 1: exactly collinear lattice triple; 2..4: a bit-identical repeated point (p0=p1, p1=p2,
     /// p0=p2); 5: all three identical
     ThreePoints { p0: P2, p1: P2, p2: P2, kind: u8 },
+    /// generating circle with exact samples at free angles plus samples displaced outward by dev*tol (dev < 1) near its
+    /// four axis extremes, and a distant second circle carrying more points than the exact samples but fewer than all inliers
+    RansacExtremes { c: P2, r: f64, exact: Vec<f64>, noisy: Vec<(f64, f64)>, rho: f64, out_frac: f64, out_angles: Vec<f64> },
     Ransac { c: P2, r: f64, n_in: usize, in_angles: Vec<f64>, outliers: Vec<P2>, limits: u8 },
     Stats { values: Vec<f64> },
 }
@@ -33,13 +36,13 @@ impl Property for C09 {
     type Case = Case;
     const ID: &'static str = "C09";
     fn rule() -> &'static str {
-        "families: polynomial least squares with K=2..6 coefficients on 1.5K..200 abscissae centred at c in [-1.5,1.5] with half-width 0.2..2 (asymmetric, clustered, repeated values), coefficients +-10, optional positive weights 0.05..20, exact samples or +-1 noise (cases with normal-matrix condition > 1e10 discarded and counted); two-point lines; circle fits on arcs of 60..360 degrees, 5..200 points, guess within 0.5R / 0.5-2x radius, All and Gaussian(sigma>=2) modes, exact or noisy; lattice circles (Pythagorean offsets from an integer centre, bit-identical distances) with concentric or offset guesses, and with the generating circle itself as the guess; three-point circles (general position, exactly collinear, a repeated point); seeded RANSAC with >=50% exact inliers; mean/variance/median. Oracle: recovery of the generating polynomial/circle, weighted normal equations (residual orthogonal to every monomial), QR reference solve, stationarity of the radial objective, inlier count. Non-trivial: abscissae not symmetric about 0 (|centre| > 0.1 half-width) and, when weighted, max/min weight >= 2; circles not centred at the origin. Distinct = distinct canonical JSON."
+        "families: polynomial least squares with K=2..6 coefficients on 1.5K..200 abscissae centred at c in [-1.5,1.5] with half-width 0.2..2 (asymmetric, clustered, repeated values), coefficients +-10, optional positive weights 0.05..20, exact samples or +-1 noise (cases with normal-matrix condition > 1e10 discarded and counted); two-point lines; circle fits on arcs of 60..360 degrees, 5..200 points, guess within 0.5R / 0.5-2x radius, All and Gaussian(sigma>=2) modes, exact or noisy; lattice circles (Pythagorean offsets from an integer centre, bit-identical distances) with concentric or offset guesses, and with the generating circle itself as the guess; three-point circles (general position, exactly collinear, a repeated point); seeded RANSAC with >=50% exact inliers, and with inliers displaced outward (within the tolerance) near the generating circle's axis extremes against a second circle of intermediate support; mean/variance/median. Oracle: recovery of the generating polynomial/circle, weighted normal equations (residual orthogonal to every monomial), QR reference solve, stationarity of the radial objective, inlier count. Non-trivial: abscissae not symmetric about 0 (|centre| > 0.1 half-width) and, when weighted, max/min weight >= 2; circles not centred at the origin. Distinct = distinct canonical JSON."
     }
     fn cases(t: Tier) -> u32 {
         t.pick(1_000_000, 6_000_000)
     }
     fn expected_labels() -> Vec<&'static str> {
-        vec!["poly_exact", "poly_noisy", "weighted", "K=2", "K=3", "K=4", "K=5", "K=6", "best_fit_line", "line_2pts", "circle_exact", "circle_noisy", "circle_gaussian", "circle_lattice", "circle_concentric_guess", "three_points_general", "three_points_collinear", "three_points_repeated", "ransac", "stats", "asymmetric"]
+        vec!["poly_exact", "poly_noisy", "weighted", "K=2", "K=3", "K=4", "K=5", "K=6", "best_fit_line", "line_2pts", "circle_exact", "circle_noisy", "circle_gaussian", "circle_lattice", "circle_concentric_guess", "three_points_general", "three_points_collinear", "three_points_repeated", "ransac_outward_inliers_at_extremes", "ransac", "stats", "asymmetric"]
     }
     fn strategy(_t: Tier) -> BoxedStrategy<Case> {
         let poly = (2usize..=6, prop::collection::vec(coord(10.0), 6), unif(-1.5, 1.5), unif(0.2, 2.0), prop::collection::vec(prop_oneof![4 => unif(-1.0, 1.0), 1 => (-4i32..=4).prop_map(|k| k as f64 / 4.0)], 9..200), prop::option::of(prop::collection::vec(logu(-1.3, 1.3), 200)), prop::option::of(prop::collection::vec(unif(-1.0, 1.0), 200)), 0usize..200)
@@ -61,7 +64,10 @@ impl Property for C09 {
         let lattice = (-100i32..=100, -100i32..=100, 0u8..4, -10i32..=10, prop::collection::vec(any::<u16>(), 0..6), (prop_oneof![2 => Just(0i8), 1 => -2i8..=2], prop_oneof![2 => Just(0i8), 1 => -2i8..=2], unif(0.5, 2.0)), prop::option::of(unif(2.0, 4.0)))
             .prop_map(|(cx, cy, which, exp2, drop, guess, gaussian)| Case::CircleLattice { cx, cy, which, exp2, drop, guess, gaussian });
         let three = (p2(50.0), p2(50.0), p2(50.0), prop_oneof![4 => Just(0u8), 1 => Just(1u8), 1 => 2u8..6]).prop_map(|(p0, p1, p2, kind)| Case::ThreePoints { p0, p1, p2, kind });
+        let extremes = (p2(50.0), logu(-0.5, 1.5), prop::collection::vec(unif(0.0, 2.0 * PI), 24..40), prop::collection::vec((unif(-0.02, 0.02), unif(0.5, 0.9)), 8..20), prop::sample::select(vec![0.3, 0.5, 2.0, 3.0]), unif(0.0, 1.0), prop::collection::vec(unif(0.0, 2.0 * PI), 64))
+            .prop_map(|(c, r, exact, noisy, rho, out_frac, out_angles)| Case::RansacExtremes { c, r, exact, noisy, rho, out_frac, out_angles });
         prop_oneof![
+            1 => extremes,
             1 => three,
             1 => lattice,
             8 => poly,
@@ -84,6 +90,7 @@ impl Property for C09 {
             Case::Line2Pts { x0, y0, x1, y1 } => line2pts(*x0, *y0, *x1, *y1),
             Case::Circle { c, r, a0, extent, n, jitter, guess, gaussian, noise } => circle(c, *r, *a0, *extent, *n, jitter, *guess, gaussian, noise),
             Case::ThreePoints { p0, p1, p2, kind } => three_points(p0, p1, p2, *kind),
+            Case::RansacExtremes { c, r, exact, noisy, rho, out_frac, out_angles } => ransac_extremes(c, *r, exact, noisy, *rho, *out_frac, out_angles),
             Case::CircleLattice { cx, cy, which, exp2, drop, guess, gaussian } => circle_lattice(*cx, *cy, *which, *exp2, drop, *guess, gaussian),
             Case::Ransac { c, r, n_in, in_angles, outliers, limits } => ransac(c, *r, *n_in, in_angles, outliers, *limits),
             Case::Stats { values } => stats(values),
@@ -414,6 +421,44 @@ fn three_points(p0: &P2, p1: &P2, p2: &P2, kind: u8) -> Verdict {
             cx.nontrivial();
         }
     }
+    cx.pass()
+}
+
+/// Inliers that deviate outward (within the tolerance) at the axis extremes of the generating circle still count.
+fn ransac_extremes(c: &P2, r: f64, exact: &[f64], noisy: &[(f64, f64)], rho: f64, out_frac: f64, out_angles: &[f64]) -> Verdict {
+    let mut cx = Ctx::new();
+    cx.label("ransac_outward_inliers_at_extremes");
+    let c0 = pt2(c);
+    let tol = 1e-3 * r;
+    let mut pts: Vec<Point2> = exact.iter().map(|t| c0 + engeom::Vector2::new(t.cos(), t.sin()) * r).collect();
+    for (i, (dth, dev)) in noisy.iter().enumerate() {
+        let th = (i % 4) as f64 * std::f64::consts::FRAC_PI_2 + dth;
+        pts.push(c0 + engeom::Vector2::new(th.cos(), th.sin()) * (r + dev * tol));
+    }
+    let n_in = pts.len();
+    // the other circle: more points than the exact samples, fewer than all samples of the generating circle
+    let n_out = (exact.len() + 1 + (out_frac * (noisy.len() as f64 - 2.0)).floor().max(0.0) as usize).min(out_angles.len()).min(n_in - 1);
+    let c1 = c0 + engeom::Vector2::new(6.0 * r * (1.0 + rho), 2.0 * r);
+    for t in &out_angles[..n_out] {
+        pts.push(c1 + engeom::Vector2::new(t.cos(), t.sin()) * (rho * r));
+    }
+    let n = pts.len();
+    let perm = crate::gen_mesh::permutation(n, 0x5eed ^ n as u64);
+    let mut shuffled = vec![pts[0]; n];
+    for (i, j) in perm.iter().enumerate() {
+        shuffled[*j] = pts[i];
+    }
+    let truth = Circle2::from_point(c0, r);
+    let fit = match guarded(|| Circle2::ransac(&shuffled, tol, None, None, None)) {
+        Ok(Ok(f)) => f,
+        Ok(Err(e)) => return Verdict::fail("C09/ransac/failed", format!("no candidate found: {e}")),
+        Err(m) => return Verdict::fail("C09/ransac/panic", m),
+    };
+    let count = |k: &Circle2, t: f64| shuffled.iter().filter(|p| k.distance_to(p).abs() < t).count();
+    let (a, b) = (count(&fit, tol), count(&truth, tol * 0.999));
+    ensure!(b == n_in, "C09/harness/ransac_extremes", "harness: the generating circle should hold all {n_in} of its samples, holds {b}");
+    ensure!(a >= b, "C09/ransac/fewer_inliers_than_generating_circle", "RANSAC circle ({:?}, r={:e}) has {a} inliers, the generating circle ({:?}, r={r:e}) has {b} of {n} points ({} of them displaced outward near its axis extremes; the other circle holds {n_out})", fit.center, fit.r(), c0, noisy.len());
+    cx.nontrivial();
     cx.pass()
 }
 
